@@ -45,6 +45,11 @@ func (g *RegexGen) bracket() rxPiece {
 			in.Items = append(in.Items, ListItem{Kind: "range", From: string([]byte{lo}), To: string([]byte{hi})})
 		} else {
 			c := g.ch()
+			if r.Chance(1, 6) {
+				// characters that are special outside a class are plain inside one
+				sp := []byte(".*+?|(){}$")
+				c = sp[r.Intn(len(sp))]
+			}
 			sb.WriteByte(c)
 			in.Items = append(in.Items, ListItem{Kind: "lit", S: string([]byte{c})})
 		}
@@ -60,7 +65,7 @@ func (g *RegexGen) bracket() rxPiece {
 func (g *RegexGen) atom(depth int) rxPiece {
 	r := g.R
 	for tries := 0; tries < 8; tries++ {
-		switch r.Intn(12) {
+		switch r.Intn(13) {
 		case 0, 1, 2, 3:
 			c := g.ch()
 			return rxPiece{string([]byte{c}), Lit{S: string([]byte{c})}, false}
@@ -79,6 +84,11 @@ func (g *RegexGen) atom(depth int) rxPiece {
 			default:
 				return rxPiece{"\\S", Class{Kind: "whitespace", Not: true}, false}
 			}
+		case 11:
+			// an escaped special character is that character
+			sp := []byte(".*+?|()[]{}^$-")
+			c := sp[r.Intn(len(sp))]
+			return rxPiece{"\\" + string([]byte{c}), Lit{S: string([]byte{c})}, false}
 		case 7, 8, 9:
 			if depth > 0 && g.budget > 0 {
 				g.budget--
